@@ -606,7 +606,7 @@ def execute(ctx, world, rng=None, steps=None, cfg=None):
             if "died" in ref:
                 raise HarnessError("reference child died: " + json.dumps(ref)[:300])
             d = dg.diff(out, ref["out"], stats=stats)
-            events.append([qc, out[0] if not dg.is_error(out) else out[1]])
+            events.append([qc, out[0] if not dg.is_error(out) else out[1], dg.sha(out)[:16]])
             pairs.add(r["cache"] + "||" + qc.split("[")[0] + "|" + (q.get("branch") or "") + "|" + str(q.get("kind", "")))
             if prev is not None:
                 if prev_err:
